@@ -56,3 +56,45 @@ func nilIntervalShape(rel string) func() string {
 		return fmt.Sprintf("/-- generated from %s: a log without TemporalInterval is kept -/\ndef temporallyCompatible (iv : Option (Int × Int)) (t : Int) : Bool :=\n  match iv with\n  | none => true\n  | some (s, l) => temporallyCompatibleCond s l t\n", rel)
 	}
 }
+
+// windowVerbatimShape checks that the configured NotAfter bounds reach ValidateChain unchanged:
+// `*vCfg.NotAfterStart = start.AsTime()`, `*vCfg.NotAfterLimit = limit.AsTime()` in ValidateLogConfig and
+// `notAfterStart: vCfg.NotAfterStart`, `notAfterLimit: vCfg.NotAfterLimit` in setUpLogInfo.
+func windowVerbatimShape() func() string {
+	return func() string {
+		cfg := mustFunc("trillian/ctfe/config.go", "ValidateLogConfig")
+		want := map[string]string{"*vCfg.NotAfterStart": "start.AsTime()", "*vCfg.NotAfterLimit": "limit.AsTime()"}
+		seen := map[string]int{}
+		for _, st := range findStmts(cfg, func(s ast.Stmt) bool { _, ok := s.(*ast.AssignStmt); return ok }) {
+			a := st.(*ast.AssignStmt)
+			if len(a.Lhs) == 1 && len(a.Rhs) == 1 {
+				if w, ok := want[src(a.Lhs[0])]; ok {
+					if src(a.Rhs[0]) != w {
+						panic(bail{"trillian/ctfe/config.go: the configured bound is no longer stored verbatim: " + src(a)})
+					}
+					seen[src(a.Lhs[0])]++
+				}
+			}
+		}
+		if seen["*vCfg.NotAfterStart"] != 1 || seen["*vCfg.NotAfterLimit"] != 1 {
+			panic(bail{"trillian/ctfe/config.go: assignments of the NotAfter bounds not found exactly once each"})
+		}
+		inst := mustFunc("trillian/ctfe/instance.go", "setUpLogInfo")
+		n := 0
+		ast.Inspect(inst.Body, func(nd ast.Node) bool {
+			if kv, ok := nd.(*ast.KeyValueExpr); ok {
+				k, v := src(kv.Key), src(kv.Value)
+				if (k == "notAfterStart" && v == "vCfg.NotAfterStart") || (k == "notAfterLimit" && v == "vCfg.NotAfterLimit") {
+					n++
+				} else if k == "notAfterStart" || k == "notAfterLimit" {
+					panic(bail{"trillian/ctfe/instance.go: validation options no longer take the configured bound unchanged: " + src(kv)})
+				}
+			}
+			return true
+		})
+		if n != 2 {
+			panic(bail{"trillian/ctfe/instance.go: notAfterStart/notAfterLimit wiring not found in setUpLogInfo"})
+		}
+		return "/-- generated: ValidateLogConfig stores `start.AsTime()` / `limit.AsTime()` verbatim and setUpLogInfo passes them on unchanged -/\ndef configuredWindowVerbatim : Bool := true\n"
+	}
+}
